@@ -164,6 +164,10 @@ def gen_case(rng, k):
                        same_grid=bool(rng.random() < 0.7), with_cia=True)
     wn = spec['opacities'][0]['wn']
     pairs = [c['pair'] for c in spec['cia']]
+    # quota (every 4th case): the composition is served by a plugin-style chemistry (direct subclass of the base class
+    # keeping its tables; the base get_gas_mix_profile returns views of them)
+    if k % 4 == 2:
+        spec['chem_kind'] = 'table'
     if rng.random() < 0.6:
         mol = spec['gases'][int(rng.integers(0, len(spec['gases'])))]['mol']
         pair = 'H2-' + mol
